@@ -2,6 +2,7 @@
 // @id C10.roundtrip.PPassemblage
 // @engine B
 // @entry vfh_C10_rt_ppassemblage
+// @shared_state_watch
 // @tier Q
 // @reach rt.reread
 // @funcs cxxPPassemblage::dump_raw; cxxPPassemblage::read_raw; cxxPPassemblageComp::read_raw; PHRQ_io::get_line
@@ -12,6 +13,7 @@
 // @id C10.roundtrip.Exchange
 // @engine B
 // @entry vfh_C10_rt_exchange
+// @shared_state_watch
 // @tier Q
 // @reach rt.reread
 // @funcs cxxExchange::dump_raw; cxxExchange::read_raw; cxxExchComp::read_raw
@@ -20,6 +22,7 @@
 // @id C10.roundtrip.GasPhase
 // @engine B
 // @entry vfh_C10_rt_gasphase
+// @shared_state_watch
 // @tier Q
 // @reach rt.reread
 // @funcs cxxGasPhase::dump_raw; cxxGasPhase::read_raw; cxxGasComp::read_raw
@@ -28,6 +31,7 @@
 // @id C10.roundtrip.SSassemblage
 // @engine B
 // @entry vfh_C10_rt_ssassemblage
+// @shared_state_watch
 // @tier T
 // @reach rt.reread
 // @funcs cxxSSassemblage::dump_raw; cxxSSassemblage::read_raw; cxxSS::read_raw
@@ -36,6 +40,7 @@
 // @id C10.roundtrip.Kinetics
 // @engine B
 // @entry vfh_C10_rt_kinetics
+// @shared_state_watch
 // @tier Q
 // @reach rt.reread
 // @funcs cxxKinetics::dump_raw; cxxKinetics::read_raw; cxxKineticsComp::read_raw
@@ -44,6 +49,7 @@
 // @id C10.roundtrip.Surface
 // @engine B
 // @entry vfh_C10_rt_surface
+// @shared_state_watch
 // @tier T
 // @reach rt.reread
 // @funcs cxxSurface::dump_raw; cxxSurface::read_raw; cxxSurfaceComp::read_raw; cxxSurfaceCharge::read_raw
@@ -52,6 +58,7 @@
 // @id C10.roundtrip.Solution
 // @engine B
 // @entry vfh_C10_rt_solution
+// @shared_state_watch
 // @tier T
 // @reach rt.reread
 // @funcs cxxSolution::dump_raw; cxxSolution::read_raw
@@ -60,6 +67,7 @@
 // @id C10.roundtrip.SolutionIsotopes
 // @engine B
 // @entry vfh_C10_rt_solution_isotopes
+// @shared_state_watch
 // @tier Q
 // @reach iso.reread
 // @funcs cxxSolution::read_raw
@@ -68,6 +76,7 @@
 // @id C10.roundtrip.Temperature
 // @engine B
 // @entry vfh_C10_rt_temperature
+// @shared_state_watch
 // @tier Q
 // @reach rt.reread
 // @funcs cxxTemperature::dump_raw; cxxTemperature::read_raw
@@ -76,6 +85,7 @@
 // @id C10.roundtrip.Pressure
 // @engine B
 // @entry vfh_C10_rt_pressure
+// @shared_state_watch
 // @tier Q
 // @reach rt.reread
 // @funcs cxxPressure::dump_raw; cxxPressure::read_raw
